@@ -5,6 +5,7 @@ import (
 	"context"
 	"fmt"
 	"net"
+	"slices"
 	"time"
 
 	"github.com/AdguardTeam/AdGuardDNS/internal/dnsserver/netext"
@@ -247,10 +248,30 @@ func (h *dnsCryptHandler) ServeDNS(rw dnscrypt.ResponseWriter, r *dns.Msg) (err 
 
 	// The dnscrypt module truncates the response once more, to the size
 	// advertised in r, and sends it uncompressed if it fits that size this way.
-	// Make sure that what it sends doesn't exceed the configured maximum.
+	// Make sure that what it sends doesn't exceed the configured maximum.  Do
+	// that in a copy of the OPT record, since msg may share the record with r
+	// and must keep the size the client has sent.
 	if opt := r.IsEdns0(); opt != nil && network == NetworkUDP {
-		opt.SetUDPSize(min(opt.UDPSize(), h.srv.conf.MaxUDPRespSize))
+		lowered := replaceOPT(r, opt)
+		lowered.SetUDPSize(min(opt.UDPSize(), h.srv.conf.MaxUDPRespSize))
 	}
 
 	return rw.WriteMsg(msg)
+}
+
+// replaceOPT replaces opt in the additional section of r with a shallow copy of
+// it and returns the copy.  The section is cloned first, so that a message that
+// shares the section or opt itself with r isn't affected by the replacement or
+// by later changes to the header of the copy.
+func replaceOPT(r *dns.Msg, opt *dns.OPT) (optCopy *dns.OPT) {
+	optCopy = &dns.OPT{Hdr: opt.Hdr, Option: opt.Option}
+
+	r.Extra = slices.Clone(r.Extra)
+	for i, rr := range r.Extra {
+		if rr == dns.RR(opt) {
+			r.Extra[i] = optCopy
+		}
+	}
+
+	return optCopy
 }
